@@ -72,13 +72,17 @@ ASSUMPTIONS = [
 SHARDS = {"quick": 4, "thorough": 16}
 BUDGET_S = {"quick": 60, "thorough": 660}
 FLOORS = {
-    "quick": {"schedules": 60, "sched.steps": 150000, "interleavings.distinct": 50, "reader.iterations": 400,
-              "held.iterations_with_commit": 80, "held.commits_during_hold": 100, "held.lazy_first_touch_after_commit": 25,
-              "held.evals": 300, "open.evals": 400, "refresh.evals": 120, "refresh.after_merge": 20,
-              "refresh.reused_segment_readers": 10, "uptodate.evals": 400, "uptodate.false": 40, "uptodate.true": 100,
-              "popA.schedules": 20, "popB.schedules": 15, "storage.ram.schedules": 10, "storage.file-mmap.schedules": 10,
-              "storage.file-nommap.schedules": 10, "tx.kind.optimize": 10, "tx.kind.default": 10, "tx.kind.clear": 3,
-              "tx.kind.delete-only": 10, "open.paused_inside": 40, "commits.published": 150},
+    # quick floors = about 1/4 of the minimum over seeds 0..4 (4 shards x 60 s on a busy 16-core machine)
+    "quick": {"schedules": 250, "sched.steps": 400000, "interleavings.distinct": 250, "reader.iterations": 2000,
+              "held.iterations_with_commit": 600, "held.commits_during_hold": 1000,
+              "held.lazy_first_touch_after_commit": 300, "held.everything_first_touched_after_commit": 90,
+              "held.evals": 2000, "open.evals": 900, "refresh.evals": 900, "refresh.after_merge": 140,
+              "refresh.reused_segment_readers": 180, "uptodate.evals": 2000, "uptodate.false": 700, "uptodate.true": 1100,
+              "popA.schedules": 120, "popB.schedules": 120, "storage.ram.schedules": 80,
+              "storage.file-mmap.schedules": 80, "storage.file-nommap.schedules": 80, "tx.kind.optimize": 90,
+              "tx.kind.default": 180, "tx.kind.clear": 90, "tx.kind.delete-only": 90, "open.paused_inside": 600,
+              "reader.open_retries": 100, "commits.published": 800, "proc.histories": 5, "proc.held_evals": 120,
+              "proc.held_across_commit": 20, "proc.final_checks": 5},
     "thorough": {"schedules": 1500, "sched.steps": 4000000, "interleavings.distinct": 1200, "reader.iterations": 10000,
                  "held.iterations_with_commit": 2000, "held.commits_during_hold": 2500,
                  "held.lazy_first_touch_after_commit": 600, "held.evals": 8000, "open.evals": 10000,
